@@ -4,7 +4,7 @@ from ..engine import short, where_of
 from ..flow import OUTCOME, payload_nodes
 
 
-def _fmt_path(g, p, limit=12):
+def _fmt_path(g, p, limit=60):
     names = [g.fmt_node(x[0]) for x in p]
     names = [short(n.split("#")[0]) + "#" + n.split("#")[1] if "#" in n else n for n in names]
     if len(names) > limit:
@@ -54,16 +54,24 @@ def component(ctx, anchor, comp, cut_sponge=False):
         if not starts:
             return False, "field %s.%s is never read by %s or its callees" % (adt, fld, short(anchor.body.id)), anchor.body.span, 0
         if elem:
-            pl = payload_nodes(g, [n], elem) if n in g.fwd else {}
-            if not pl:
-                return (False, "field %s.%s: its payload (%s) is never extracted" % (adt, fld, "/".join(elem)),
-                        anchor.body.span, 0)
-            starts = list(pl.keys())
+            # only the payload (elements of the given type) inside the field counts, not its shape
+            starts = [("STATE", n, t) for t in elem]
         ok, p = reach_from(ctx, g, starts, cut)
         if ok:
             return True, "%s.%s: %s" % (adt.rsplit("::", 1)[-1], fld, _fmt_path(g, p)), None, len(starts)
-        return (False, "field %s.%s is read but cannot influence the verifier's outcome%s" % (
-            adt, fld, " with challenges held fixed" if cut_sponge else ""), anchor.body.span, len(starts))
+        return (False, "field %s.%s is read but %s cannot influence the verifier's outcome%s" % (
+            adt, fld, "its payload" if elem else "it", " with challenges held fixed" if cut_sponge else ""),
+            anchor.body.span, len(starts))
+    if kind == "field_any":
+        # equivalent representations of one key element (plain / prepared): one of them must be live
+        last = None
+        for fld in comp[2]:
+            r = component(ctx, anchor, ("field", comp[1], fld), cut_sponge)
+            if r[0]:
+                return r
+            last = r
+        return (False, "none of the fields %s.{%s} can influence the verifier's outcome" % (comp[1], ",".join(comp[2])),
+                last[2], last[3])
     if kind == "callres":
         callee = comp[1]
         sites = []
@@ -101,7 +109,12 @@ def statement_components(anchor):
 
 
 def proof_components(anchor):
-    return [("proof:%s.%s" % (adt.rsplit("::", 1)[-1], fld), ("field", adt, fld)) for adt, fld in anchor.info["proof"]]
+    out = []
+    for ent in anchor.info["proof"]:
+        adt, fld = ent[0], ent[1]
+        comp = ("field", adt, fld) + ((ent[2],) if len(ent) > 2 and ent[2] else ())
+        out.append(("proof:%s.%s" % (adt.rsplit("::", 1)[-1], fld), comp))
+    return out
 
 
 def key_components(anchor):
@@ -112,5 +125,10 @@ def key_components(anchor):
         if vk is None:
             # check_combinations / inherited defaults reach the batch / single verifier of the scheme
             vk = anchor.info["vk"].get("batch_check") if "batch_check" in anchor.info["vk"] else anchor.info["vk"].get("check")
-    comps = [("vk:%s.%s" % (adt.rsplit("::", 1)[-1], fld), ("field", adt, fld)) for adt, fld in (vk or [])]
+    comps = []
+    for adt, fld in (vk or []):
+        if "|" in fld:
+            comps.append(("vk:%s.%s" % (adt.rsplit("::", 1)[-1], fld), ("field_any", adt, fld.split("|"))))
+        else:
+            comps.append(("vk:%s.%s" % (adt.rsplit("::", 1)[-1], fld), ("field", adt, fld)))
     return comps
